@@ -759,3 +759,96 @@ def pack_blocks(data, cap, chunk=None):
             out.append(k)
             pos += k
     return out
+
+
+# ---------------------------------------------------------------- planting
+# A block whose Huffman-coded symbol data spells an arbitrary bit string:
+# unary-style complete code over 20 symbols
+#   m1..m17 : '0', '10', ..., 1^16 0   (MTF positions 1..17, one byte each)
+#   EOB     : 1^17 0 (18 bits)   RUNA: 1^18 0   RUNB: 1^18 1 (19 bits)
+# so any bit string without 17 consecutive ones tokenises into MTF symbols
+# only (no runs, no EOB): the block size equals the number of tokens.
+PLANT_USED = list(range(0x41, 0x41 + 18))
+PLANT_LENS = [19, 19] + list(range(1, 18)) + [18]
+
+
+def plant_tokenise(bits):
+    """bit list -> symbols (2..18); the string is closed with a '0'."""
+    syms = []
+    r = 0
+    for b in list(bits) + [0]:
+        if b:
+            r += 1
+            if r >= 17:
+                raise ValueError('17 consecutive ones in payload')
+        else:
+            syms.append(r + 2)       # m_{r+1} has symbol index r+2
+            r = 0
+    return syms
+
+
+def make_planted_block(w, payload_bits, pre=0, post=8, rng=None, level=9):
+    """Append a VALID block whose coded data contains `payload_bits`
+    (starting after `pre` one-bit filler tokens).  Returns info incl. the
+    plaintext this block decodes to and the bit offset of the payload."""
+    rng = rng or random.Random(0)
+    syms = [2] * pre
+    body = plant_tokenise(payload_bits)
+    tail = [rng.randrange(2, 19) for _ in range(post)]
+    allsyms = syms + body + tail
+    eob = 19
+    # decode our own symbols to get the plaintext / crc / a usable origptr
+    last = un_mtf_rle2(PLANT_USED, allsyms + [eob], level * 100000)
+    n = len(last)
+    plain = None
+    for op in range(n):
+        blk = ibwt(last, op)
+        try:
+            plain = unrle1(blk)
+            break
+        except Reject:
+            continue
+    if plain is None:
+        raise ValueError('no usable origptr')
+    crc = bzcrc(plain)
+    start = len(w.bits)
+    w.put(48, BLOCK_MAGIC, 'block_magic')
+    w.put(32, crc, 'block_crc')
+    w.put(1, 0)
+    w.put(24, op)
+    big = 0
+    small = [0] * 16
+    for c in PLANT_USED:
+        big |= 1 << (15 - (c >> 4))
+        small[c >> 4] |= 1 << (15 - (c & 15))
+    w.put(16, big)
+    for i in range(16):
+        if big & (1 << (15 - i)):
+            w.put(16, small[i])
+    ng = (len(allsyms) + 1 + 49) // 50
+    w.put(3, 2)
+    w.put(15, ng)
+    w.raw('0' * ng)
+    for _ in range(2):
+        st, bits = delta_bits(PLANT_LENS)
+        w.put(5, st)
+        w.raw(bits)
+    codes = canon_codes(PLANT_LENS)
+    payload_at = None
+    for i, s in enumerate(allsyms + [eob]):
+        if i == pre:
+            payload_at = len(w.bits)
+        w.put(PLANT_LENS[s], codes[s])
+    return {'start': start, 'end': len(w.bits), 'crc': crc, 'plain': plain,
+            'payload_at': payload_at, 'nblock': n}
+
+
+def block_bits(plain, level=9, rng=None, **kw):
+    """bits (list) of one complete block for `plain`, from its magic on."""
+    w = BitWriter()
+    make_block(w, plain, level, rng, **kw)
+    return list(w.bits)
+
+
+def num_bits(n, v):
+    return [(v >> i) & 1 for i in range(n - 1, -1, -1)]
